@@ -851,7 +851,9 @@ where
         &mut self,
         cx: &mut Context<'_>,
     ) -> Poll<Result<Option<impl Buf>, StreamError>> {
-        if !self.stream.has_data() {
+        // A DATA frame may be empty: it contributes no bytes and does not end the body, so keep
+        // reading frames until one carries payload (or the body really ends).
+        while !self.stream.has_data() {
             match ready!(self.stream.poll_next(cx)) {
                 Err(frame_stream_error) => {
                     return Poll::Ready(Err(
